@@ -2,6 +2,7 @@
 (`DateTimeBase`, `DateConverter`, `TimeConverter`, `DateTimeConverter`). -/
 import XsdataModel.Props.C05
 import XsdataModel.Proofs.StrptimeL
+import XsdataModel.Proofs.StrptimeGenL
 import XsdataModel.Proofs.DatesFormatParse
 
 namespace Props.C05
@@ -169,6 +170,82 @@ theorem datetime_format_rt (e : CEnv) (y m d h mi sec us : Nat) (hy1 : 1 ≤ y) 
     have hy0 : ¬ ((y : Int) < 1) := by omega
     have hs0 : ¬ ((sec : Int) > 59) := by omega
     simp [hy0, hs0, hv]
+
+/-- **any format string** made of the numeric directives `%Y %m %d %H %M %S %f` (each at most once —
+`strptime` rejects a repeated directive), `%%` and literal characters other than white space, in any
+order and also without separators (`%Y%m%d%H%M%S%f`, `%d.%m.%Y`, `%H%%%M`): every naive datetime
+whose fields outside the format have the values `strptime` fills in (1900-01-01 00:00:00.0) is
+written with the format and read back as the same datetime. Nothing is assumed about the order of
+the directives: the proof shows that on zero-padded output the first match of `_strptime`'s regular
+expression, in backtracking order, takes every field whole. -/
+theorem datetime_any_format_rt (e : CEnv) (fmt : Str) (items : List FItem)
+    (hc : compileFmt e.toEnv fmt false = .ok items) (hws : ∀ c ∈ fmt, e.toEnv.isSpace c = false)
+    (hn : dirsNodup items = true)
+    (y m d h mi sec us : Nat) (hy1 : 1 ≤ y) (hy2 : y ≤ 9999)
+    (hv : validateDate y m d = true) (hh : h ≤ 23) (hmi : mi ≤ 59) (hs : sec ≤ 59) (hus : us < 1000000)
+    (dY : FItem.dir 'Y' ∉ items → y = 1900) (dm : FItem.dir 'm' ∉ items → m = 1)
+    (dd : FItem.dir 'd' ∉ items → d = 1) (dH : FItem.dir 'H' ∉ items → h = 0)
+    (dM : FItem.dir 'M' ∉ items → mi = 0) (dS : FItem.dir 'S' ∉ items → sec = 0)
+    (df : FItem.dir 'f' ∉ items → us = 0) :
+    ∃ s, atomSerialize (.pyDateTime ⟨y, m, d, h, mi, sec, us⟩) { format := some fmt } = .ok (s, none) ∧
+      atomDeserialize e .pyDateTime s { format := some fmt } = some (.pyDateTime ⟨y, m, d, h, mi, sec, us⟩) := by
+  obtain ⟨hm1, hm2, hd1, hd2⟩ := valid_date_bounds y m d hv
+  obtain ⟨hser, hok⟩ := compile_render e.toEnv ⟨y, m, d, h, mi, sec, us⟩ fmt.length fmt false items
+    (Nat.le_refl _) hws hc
+  refine ⟨render ⟨y, m, d, h, mi, sec, us⟩ items, by simp [atomSerialize, dtSerialize, hser], ?_⟩
+  have hfirst := firstMatch_render e.toEnv y m d h mi sec us hy2 hm1 hm2 hd1 hd2 hh hmi hs hus items hok {} []
+  rw [List.append_nil] at hfirst
+  have hstr := strptime_of_first e.toEnv _ fmt _ _ hc hn hfirst
+  obtain ⟨f1, f2, f3, f4, f5, f6, f7⟩ :=
+    setAll_fields e.toEnv y m d h mi sec us hy2 hm2 hd2 hh hmi hs hus items hok {}
+  have g1 : (setAll e.toEnv ⟨y, m, d, h, mi, sec, us⟩ {} items).year.getD 1900 = (y : Int) := by
+    rw [f1]; split
+    · rfl
+    · rename_i hx; rw [dY hx]; rfl
+  have g2 : (setAll e.toEnv ⟨y, m, d, h, mi, sec, us⟩ {} items).month.getD 1 = (m : Int) := by
+    rw [f2]; split
+    · rfl
+    · rename_i hx; rw [dm hx]; rfl
+  have g3 : (setAll e.toEnv ⟨y, m, d, h, mi, sec, us⟩ {} items).day.getD 1 = (d : Int) := by
+    rw [f3]; split
+    · rfl
+    · rename_i hx; rw [dd hx]; rfl
+  have g4 : (setAll e.toEnv ⟨y, m, d, h, mi, sec, us⟩ {} items).hour.getD 0 = (h : Int) := by
+    rw [f4]; split
+    · rfl
+    · rename_i hx; rw [dH hx]; rfl
+  have g5 : (setAll e.toEnv ⟨y, m, d, h, mi, sec, us⟩ {} items).minute.getD 0 = (mi : Int) := by
+    rw [f5]; split
+    · rfl
+    · rename_i hx; rw [dM hx]; rfl
+  have g6 : (setAll e.toEnv ⟨y, m, d, h, mi, sec, us⟩ {} items).second.getD 0 = (sec : Int) := by
+    rw [f6]; split
+    · rfl
+    · rename_i hx; rw [dS hx]; rfl
+  have g7 : (setAll e.toEnv ⟨y, m, d, h, mi, sec, us⟩ {} items).frac.getD 0 = (us : Int) := by
+    rw [f7]; split
+    · rfl
+    · rename_i hx; rw [df hx]; rfl
+  rw [g1, g2, g3, g4, g5, g6, g7] at hstr
+  simp only [atomDeserialize, dtParse, hstr]
+  have hy0 : ¬ ((y : Int) < 1) := by omega
+  have hs0 : ¬ ((sec : Int) > 59) := by omega
+  simp [hy0, hs0, hv]
+
+/-- the hypotheses are met, e.g. by the compact format `%d%m%Y%H%M%S%f`, a format with a literal
+percent sign, and one that has only a time -/
+example (e : CEnv) : ∀ fmt ∈ [['%','d','%','m','%','Y','%','H','%','M','%','S','%','f'],
+      ['%','H','%','%','%','M'], ['%','d','.','%','m','.','%','Y']],
+    ∃ items, compileFmt e.toEnv fmt false = .ok items ∧ dirsNodup items = true := by
+  have hdot : e.toEnv.isSpace '.' = false := by rw [isSpace_ascii e.toEnv _ (by decide)]; decide
+  intro fmt hf
+  simp only [List.mem_cons, List.mem_nil_iff, or_false] at hf
+  rcases hf with rfl | rfl | rfl
+  · exact ⟨[.dir 'd', .dir 'm', .dir 'Y', .dir 'H', .dir 'M', .dir 'S', .dir 'f'],
+      by simp [compileFmt, numDirectives, Except.map], by decide⟩
+  · exact ⟨[.dir 'H', .lit '%', .dir 'M'], by simp [compileFmt, numDirectives, Except.map], by decide⟩
+  · exact ⟨[.dir 'd', .lit '.', .dir 'm', .lit '.', .dir 'Y'],
+      by simp [compileFmt, numDirectives, Except.map, hdot], by decide⟩
 
 /-- a missing `format` is a `ConverterError` in both directions, for all three types -/
 theorem datetime_needs_format (e : CEnv) (s : Str) (v : PyDT) :
